@@ -71,6 +71,12 @@ void edit(NifFile& nif, const std::string& e, size_t salt) {
 		auto& hdr = nif.GetHeader();
 		if (hdr.GetNumBlocks() > 1) hdr.DeleteBlock(hdr.GetNumBlocks() - 1);
 	}
+	else if (e == "SelectLod") {
+		// a second mesh slot is selected on every Starfield shape that has one, and left selected: a view setting of this model
+		for (auto sh : shapes)
+			if (auto geo = dynamic_cast<BSGeometry*>(sh))
+				if (geo->MeshCount() >= 2) geo->SelectMesh(1);
+	}
 	else if (e == "SetTexture") {
 		if (!shapes.empty()) {
 			std::string t = "textures\\c11\\edited.dds";
@@ -105,8 +111,18 @@ std::string meshFile(uint16_t nVerts, uint16_t nTris, int16_t base) {
 	for (int k = 0; k < 9; k++) putLE<uint32_t>(s, 0); // uv1, uv2, colours, normals, tangents, weights, lods, meshlets, cull data
 	return s;
 }
+// (the slot list is a protected member; no sample has a shape with more than one slot)
+struct MeshSlots : BSGeometry {
+	static std::vector<BSGeometryMesh> BSGeometry::* ptr() { return &MeshSlots::meshes; }
+};
 void attachMeshes(NifFile& nif) {
 	int n = 0;
+	for (auto sh : nif.GetShapes())
+		if (auto geo = dynamic_cast<BSGeometry*>(sh)) {
+			// a second level of detail: a second slot like the first
+			auto& slots = geo->*MeshSlots::ptr();
+			if (slots.size() == 1) slots.push_back(slots[0]);
+		}
 	for (auto sh : nif.GetShapes())
 		if (auto geo = dynamic_cast<BSGeometry*>(sh))
 			for (uint8_t m = 0; m < geo->MeshCount(); m++) {
